@@ -20,8 +20,14 @@ RULE = ("one evaluation = one judged observation: (a) guise: a constant under on
         "4 ulp x (unit factors + 2); (b) system-units: the atoms of its unit belong to the documented unit set of the system the "
         "guise is named for; (c) relation: a defining relation evaluated on SI magnitudes (every namespace) or raw CGS numbers; "
         "(d) published: SI magnitude within the uncertainty class of the published value; (e) double-role: a constant name that "
-        "also constructs a Unit of the same dimension has the constant's magnitude. distinct = (sub-monitor, constant or relation, "
-        "name, suffix, namespace kind) tuples")
+        "also constructs a Unit of the same dimension has the constant's magnitude; (f) survive: after one driven library call that only "
+        "reads its operands, one operand that is a shared constant object (module/top-level guise or a guise of a namespace held since "
+        "the start of the history) is byte-for-byte what it was before the call (class, dtype, shape, buffer bytes, writeable flag, name, "
+        "unit expression, unit base value, offset, dimensions, registry); every 1000 calls and after each re-materialisation all tracked "
+        "objects are compared (bystanders); (g) after-use: at the end of the history each tracked object against the snapshot taken "
+        "before the first call, each namespace binding, and (a)-(e) again in the same process (namespace kinds '...:after-use'). "
+        "distinct = (sub-monitor, constant or relation, name, suffix, namespace kind) tuples; for (f) (call template, operand position, "
+        "operand kind, kind of the other operand)")
 ASSUMPTIONS = (
     "vf/ref/c15_consts.py (own transcription: CODATA 2018 values, uncertainty classes = spread of CODATA 1986-2018 adjustments, IAU 2015 "
     "nominal GM / CODATA G, planet GM of the NASA fact sheets, which name belongs to which constant, unit sets of the 7 unit systems) is the trusted base",
@@ -42,8 +48,18 @@ ASSUMPTIONS = (
     "generated unit systems in which the unit of some constant would have a scale outside 1e-150..1e150 (eps_0 in Ypc, m_geom, t_pl) are "
     "not generated: unyt's scale arithmetic under/overflows there (ZeroDivisionError), a float-range artefact, not a property of constants",
     "generated unit systems draw base units from documented unit names; systems that unyt refuses to construct are recorded, not judged",
+    "'denotes one physical quantity' holds for the life of the process, not only right after import: the exported constants are shared "
+    "objects, so a library call that takes a constant as an operand and is not an explicit in-place request must leave the object "
+    "byte-for-byte unchanged (snapshot contract); what the call returns or whether it raises is other properties' subject and not judged here",
+    "explicit in-place requests by the caller are not driven on a constant: augmented assignment, out=<the constant>, convert_to_*, "
+    "item assignment, inplace=True, templates the shared catalogue tags 'mutator', and writes through documented views (.d, .ndview, "
+    "unyt_array(x), np.asarray(x)); the harness does overwrite results the documentation calls copies (.to/.in_units/.in_base/.in_cgs/"
+    ".in_mks/.v/.value/.to_ndarray/.copy/copy.copy/pickle, arithmetic results, np.array/np.copy/stack/concatenate results)",
+    "an equal but different Unit object attached to a constant is the same quantity (note, not a violation)",
+    "a driven call that does not return within 10 s of wall clock (1 s after five such calls) is abandoned and counted, never judged; a "
+    "damaged constant is not restored, so later alarms of the same history may be consequences of the first (keys name call and operand)",
 )
-MIN_EVALS = 20000
+MIN_EVALS = 200000
 TIMEOUT = 900
 EXHAUSTIVE = False     # names x suffixes x built-in systems are enumerated completely; generated registries and unit systems are sampled
 
@@ -513,6 +529,46 @@ def build_registry(unyt, spec):
 FULL_EVERY = 1000      # full snapshot comparison of every tracked object after this many calls
 
 
+CALL_LIMIT = 10.0      # seconds of wall clock one driven call may take; longer calls are abandoned and counted, never judged
+
+
+class _CallTimeout(BaseException):
+    pass
+
+
+def _on_alarm(sig, frame):
+    raise _CallTimeout()
+
+
+class Guard:
+    """runs one driven call under an interval timer: a call that does not come back (sympy raising a unit to the 6e23rd power) is
+    abandoned; after five such calls the limit drops to one second"""
+
+    def __init__(self):
+        import signal
+        self.signal = signal
+        self.limit = CALL_LIMIT
+        self.timeouts = 0
+        signal.signal(signal.SIGALRM, _on_alarm)
+
+    def __call__(self, fn, *a, **k):
+        sig = self.signal
+        try:
+            sig.setitimer(sig.ITIMER_REAL, self.limit)
+            try:
+                fn(*a, **k)
+                return "returned"
+            except Exception:
+                return "raised"
+            finally:
+                sig.setitimer(sig.ITIMER_REAL, 0)
+        except _CallTimeout:
+            self.timeouts += 1
+            if self.timeouts >= 5:
+                self.limit = 1.0
+            return "timeout"
+
+
 def _sfx(n):
     if n in K.LEGACY:
         return K.LEGACY[n][1]
@@ -639,6 +695,7 @@ def run_usage(unyt, rec, A, bid, payload, track):
         return tr.label[id(o)] if tr.tracked(o) else f"<{kind}>"
 
     ncalls = 0
+    guard = Guard()
     for rnd in range(rounds):
         r.shuffle(cases)
         for case in cases:
@@ -654,11 +711,10 @@ def run_usage(unyt, rec, A, bid, payload, track):
                 if len(objs) == 2 and objs[0] is objs[1]:
                     kinds[1] = "same-object"
                 labels = [lab(o, k) for k, o in ops]
-                try:
-                    fn(*objs)
-                    rec.count("usage-returned:" + fam)
-                except Exception:
-                    rec.count("usage-raised:" + fam)
+                how = guard(fn, *objs)
+                rec.count(f"usage-{how}:{fam}")
+                if how == "timeout":
+                    rec.note("usage:call-abandoned-after-limit:" + tname)
                 recent.append(tname)
                 seen = set()
                 for k, o in enumerate(objs):
@@ -667,11 +723,7 @@ def run_usage(unyt, rec, A, bid, payload, track):
                         judge_operand(tname, fam, k, o, kinds, labels)
             elif case[0] == "N":
                 tname, fn = N[case[1]]
-                try:
-                    fn()
-                    rec.count("usage-returned:rematerialise")
-                except Exception:
-                    rec.count("usage-raised:rematerialise")
+                rec.count("usage-%s:rematerialise" % guard(fn))
                 recent.append(tname)
                 full_check(tname)
                 rec.count("survive:rematerialise")
@@ -688,12 +740,11 @@ def run_usage(unyt, rec, A, bid, payload, track):
                 except Exception:
                     rec.count("usage:catalogue-not-built")
                     continue
-                try:
-                    t.observe(args, kwargs, t.invoke(args, kwargs))
-                    rec.count("usage-returned:numpy-catalogue")
-                except Exception:
-                    rec.count("usage-raised:numpy-catalogue")
+                how = guard(lambda: t.observe(args, kwargs, t.invoke(args, kwargs)))
+                rec.count("usage-%s:numpy-catalogue" % how)
                 tname = "np-catalogue:" + t.tid
+                if how == "timeout":
+                    rec.note("usage:call-abandoned-after-limit:" + tname)
                 recent.append(tname)
                 tl = [(path, o) for path, q, o in leaves if tr.tracked(o)]
                 kinds = [("plain" if o is x else (pk if o is p else "other-constant")) for _, o in tl]
@@ -806,7 +857,7 @@ def worker(batch, rec):
             rec.reach("namespace:" + ns)
             rec.sample({"registry": spec, "G": repr(space.get("G")), "qp": repr(space.get("qp"))}, limit=1)
     for k, v in track.items():
-        rec.reach("%s<=%d" % (k, math.ceil(v)))     # merged by max in extra()
+        rec.reach("%s<=%d" % (k, math.ceil(min(v, 1e18)) if v == v else 10 ** 18))     # merged by max in extra()
 
 
 CATALOGUE = (["constant:" + c for c in K.C] + ["relation:" + r[0] for r in K.RELATIONS] +
